@@ -27,6 +27,32 @@ def parseTreeRecs : Nat → List String → Option (List TreeRec × List String)
       | none => none
     | none => none
 
+/-- events of a history: `A <tree record>` | `F <split>` | `S <split>` | `G` -/
+def parseEvs : Nat → List String → Option (List Ev)
+  | 0, ws => if ws.isEmpty then some [] else none
+  | n + 1, ws =>
+    match ws with
+    | "A" :: rest =>
+      match parseTreeRec rest with
+      | some (t, rest') => (parseEvs n rest').map (fun es => Ev.add t :: es)
+      | none => none
+    | "F" :: s :: rest => match s.toInt? with
+      | some s => (parseEvs n rest).map (fun es => Ev.freq s :: es)
+      | none => none
+    | "S" :: s :: rest => match s.toInt? with
+      | some s => (parseEvs n rest).map (fun es => Ev.summ s :: es)
+      | none => none
+    | "G" :: rest => (parseEvs n rest).map (fun es => Ev.ages :: es)
+    | _ => none
+
+def renderStats (st : Stats) : String :=
+  s!"{st.n},{rr st.mean},{rr st.median},{rr st.lo},{rr st.hi}," ++ (match st.var with | some v => rr v | none => "inf")
+
+def renderAns : Ans → String
+  | .freq q => rr q
+  | .summ none => "-"
+  | .summ (some st) => renderStats st
+
 def insertSortedPair (x : Int × Rat) : List (Int × Rat) → List (Int × Rat)
   | [] => [x]
   | y :: ys => if x.1 ≤ y.1 then x :: y :: ys else y :: insertSortedPair x ys
@@ -56,12 +82,9 @@ def handle (ws : List String) : String :=
               ++ " | cons " ++ Hier.render cons ++ " | crooted " ++ (if crooted then "1" else "0")
               ++ " | sums " ++ " ".intercalate (sums.map rr)
               ++ " | prods " ++ " ".intercalate (prods.map rr)
-              ++ " | argsum " ++ optNat (argmaxFirst sums)
-              ++ " | argprod " ++ optNat (argmaxFirst prods)
-              ++ " | lens " ++ " ".intercalate (lens.map (fun p =>
-                  let st := stats p.2
-                  s!"{p.1}:{st.n},{rr st.mean},{rr st.median},{rr st.lo},{rr st.hi}," ++
-                    (match st.var with | some v => rr v | none => "inf")))
+              ++ " | argsum " ++ optNat (mccSum sd (incl == "1") ts)
+              ++ " | argprod " ++ optNat (mccProd sd (incl == "1") ts)
+              ++ " | lens " ++ " ".intercalate (lens.map (fun p => s!"{p.1}:" ++ renderStats (stats p.2)))
           | _ => "bad-trees"
         | none => "bad-op"
       | _, _ => "bad-op"
@@ -79,6 +102,14 @@ def handle (ws : List String) : String :=
         | _, _ => "bad-target"
       | _ => "bad-trees"
     | _, _ => "bad-op"
+  | "hist" :: useW :: n :: rest =>
+    -- one SplitDistribution over a history of additions and queries: the answers seen through the caches
+    match n.toNat? with
+    | some n =>
+      match parseEvs n rest with
+      | some evs => " ".intercalate ((Cached.run { sd := { useWeights := useW == "1" } } evs).map renderAns)
+      | none => "bad-events"
+    | none => "bad-op"
   | "annot" :: useW :: pct :: n :: rest =>
     -- supports written on the nodes of a target tree (post-order of its default encoding): `split:support`
     match n.toNat? with
